@@ -162,6 +162,23 @@ var c08Frags = []string{"[", "]", "(", ")", "|", "...", "-a", "--aa", "-o", "--o
 	"[OPTIONS]", "X...", "[X]...", "[-a]...", "(--)...", "--out=<a b>", "-a=<x>", "X_1", "--a-b", "--aa-", "-o-", "OPTIONSX", "XOPTIONS", "..", "....", "=<>", "=<", "-aA"}
 
 func c08Random(r *rand.Rand) string {
+	if r.Intn(12) == 0 {
+		// 1-14 nested groups around a small core
+		s := []string{"-a X", "X", "-a", "[X]", "-o=<x> X"}[r.Intn(5)]
+		for d, n := 0, 1+r.Intn(14); d < n; d++ {
+			switch r.Intn(4) {
+			case 0:
+				s = "(" + s + ")"
+			case 1:
+				s = "[" + s + "]"
+			case 2:
+				s = "[ (" + s + ") ]"
+			default:
+				s = "(" + s + ")..."
+			}
+		}
+		return s
+	}
 	if r.Intn(4) == 0 {
 		b := make([]byte, r.Intn(12))
 		r.Read(b)
